@@ -971,6 +971,7 @@ def run(ctx: core.Ctx) -> int:
         ctx.oblige("ORDER", "cpp._compile_impl", f"text generation (lines {gen_lines}) precedes open(..., 'w') (line {first_open})", ok,
                    file=FILES["cpp"], func="_compile_impl", construct="generate before open",
                    msg="_compile_impl opens the output files before both texts have been generated: an error during generation leaves a (partial) source file")
+    no_coerce_rule(ctx, graph)
     accept_rule(ctx, graph)
     # F6:names (and every by-name binding the validation relies on) is discharged by the named-array constructors refusing unknown names:
     # their guard is part of this property (rules shared with C13)
@@ -982,6 +983,48 @@ def run(ctx: core.Ctx) -> int:
     c13.container_rule(ctx)
     return core.finish(ctx, explanation="validation matrix over the static call graph of the four compile entry points; guard recognisers by "
                                         "subject and relation", **META)
+
+
+COERCERS = {"sympify", "parse_expr", "S", "eval", "exec", "_sympify", "sympify_expr"}
+
+
+def no_coerce_rule(ctx: core.Ctx, graph: "Graph"):
+    """NO-COERCE: the expressions the validator examined are the ones compiled.  model_validation looks at `.free_symbols` and skips what has
+    none (plain numbers); a back-end that re-parses / coerces a model expression (sympify, parse_expr, S, eval) turns spellings the validator
+    never examined -- strings -- into compiled expressions.  Text is parsed in the UI layer only (ui_model, before validation): that site is
+    the positive example the recogniser must find on every run."""
+    ctx.rule("NO-COERCE", "no back-end module parses / coerces a model expression after validation (sympify, parse_expr, S, eval): "
+                          "what is compiled is what was validated")
+    n_ui = 0
+    for m, tree in graph.mods.items():
+        imported = {}
+        for n in ast.walk(tree):
+            if isinstance(n, ast.ImportFrom):
+                for a in n.names:
+                    imported[a.asname or a.name] = a.name
+        for fn in [f for f in ast.walk(tree) if isinstance(f, (ast.FunctionDef, ast.AsyncFunctionDef))]:
+            for n in core.own_walk(fn):
+                if not isinstance(n, ast.Call):
+                    continue
+                f = n.func
+                nm = imported.get(f.id, f.id) if isinstance(f, ast.Name) else f.attr if isinstance(f, ast.Attribute) else None
+                if nm not in COERCERS:
+                    continue
+                if isinstance(f, ast.Name) and f.id not in imported and f.id not in ("eval", "exec"):
+                    continue
+                if isinstance(f, ast.Attribute) and not (isinstance(f.value, ast.Name) and f.value.id in ("sympy", "sp", "sym", "parsing", "sympy_parser")):
+                    continue
+                if not n.args or isinstance(n.args[0], ast.Constant):
+                    continue
+                if m == "ui_model":
+                    n_ui += 1
+                    ctx.oblige("NO-COERCE", f"{FILES[m]}:{fn.name}", f"`{ast.unparse(n)[:60]}` in the UI layer, before validation", True, file=FILES[m], func=fn.name,
+                               construct="coercion:" + nm, line=n.lineno)
+                    continue
+                ctx.oblige("NO-COERCE", f"{FILES[m]}:{fn.name}", f"`{ast.unparse(n)[:60]}`", False, file=FILES[m], func=fn.name, construct="coercion:" + nm + ":" + ast.unparse(n.args[0])[:40],
+                           line=n.lineno, msg=f"{fn.name} coerces `{ast.unparse(n.args[0])[:60]}` with {nm}() after validation: a definition spelled in a way the validator "
+                                              "skipped (a string) becomes a compiled expression without ever having been validated")
+    ctx.floor("NO-COERCE", n_ui, 1, "text-parsing site in the UI layer (positive example)")
 
 
 def _explain(c):
